@@ -71,6 +71,24 @@ fn one_chain(rng: &mut Rng, reps: usize) {
     } else {
         mesh
     };
+    // ... and now and then a face without area (three collinear vertices: a sliver left by a mesher): it has no
+    // normal, so no orientation criterion selects it - and it must not change what happens to the other faces
+    let mesh = if rng.chance(0.25) {
+        let mut vs: Vec<Point3> = mesh.vertices().to_vec();
+        let mut fs: Vec<[u32; 3]> = mesh.faces().to_vec();
+        for _ in 0..rng.int(1, 2) {
+            let f = fs[rng.below(fs.len())];
+            // (a copy of `a`: the edge a -> m has no length, the face has exactly zero area)
+            let (a, b) = (f[0], f[1]);
+            let m = vs[a as usize];
+            vs.push(m);
+            let at = rng.below(fs.len() + 1);
+            fs.insert(at, [a, (vs.len() - 1) as u32, b]);
+        }
+        Mesh::new(vs, fs, false)
+    } else {
+        mesh
+    };
     // the mesh built from a list of faces, directly: all faces (in order and shuffled), a random subset
     {
         let nf = mesh.faces().len();
@@ -273,9 +291,15 @@ fn one_chain(rng: &mut Rng, reps: usize) {
                 v.require(want == have, "create_mesh.same_triangles_coordinates_and_winding", || format!("{} vs {}", want.len(), have.len()));
                 let used: BTreeSet<u32> = got.iter().flat_map(|f| mesh.faces()[*f].to_vec()).collect();
                 v.require(nm.vertices().len() == used.len(), "create_mesh.only_used_vertices", || format!("{} vs {}", nm.vertices().len(), used.len()));
-                // report in original vertex ids (coordinates are distinct per vertex in these meshes)
-                let find = |q: &Point3| mesh.vertices().iter().position(|p| p == q).unwrap_or(usize::MAX);
-                let keep: Vec<usize> = nm.vertices().iter().map(find).collect();
+                // report in original vertex ids: the k-th vertex of the built mesh is the k-th smallest vertex id the
+                // selection uses when its coordinates say so (two vertices may share coordinates: the end points of a
+                // zero-length edge), otherwise the first vertex of the source with these coordinates
+                let used_sorted: Vec<u32> = used.iter().cloned().collect();
+                let find = |(k, q): (usize, &Point3)| match used_sorted.get(k) {
+                    Some(u) if mesh.vertices()[*u as usize] == *q => *u as usize,
+                    _ => mesh.vertices().iter().position(|p| p == q).unwrap_or(usize::MAX),
+                };
+                let keep: Vec<usize> = nm.vertices().iter().enumerate().map(find).collect();
                 o.nlist(&keep);
                 let mut tris: Vec<Vec<usize>> = nm.faces().iter().map(|t| t.iter().map(|k| keep[*k as usize]).collect()).collect();
                 tris.sort();
